@@ -469,13 +469,8 @@ pub fn run_case(line: &str) -> String {
                             format!("k!{}", n)
                         }
                     }
-                    Err(e) => {
-                        if e.to_string().contains("full") {
-                            "f".to_string()
-                        } else {
-                            "x".to_string()
-                        }
-                    }
+                    // a refused emit; what the error says is not part of any property
+                    Err(_) => "f".to_string(),
                 }
             }
             "C" => {
@@ -761,8 +756,7 @@ mod sched {
                         let _ = rtx.send(match r {
                             Ok(n) if n == m.len() => "k".to_string(),
                             Ok(n) => format!("k!{}", n),
-                            Err(e) if e.to_string().contains("full") => "f".to_string(),
-                            Err(_) => "x".to_string(),
+                            Err(_) => "f".to_string(),
                         });
                     }
                     Cmd::Queued => {
